@@ -25,6 +25,17 @@ Json generate(const std::string& tier, uint64_t seed, uint64_t index) {
   if (nb && (nb == s.message.size() || s.message[nb] == '\n' || s.message[nb] == '\r')) s.message.insert(nb, "msg");
   Json sc = Json::object();
   sc.set("sol", s.to_json());
+  // fault-injecting configuration (kept apart from the fault-free one): one fault on one of the writer's flushes - an interrupted,
+  // short or failing write - with a small stdio buffer, so that the file leaves in many pieces.  The writer either reports the
+  // failure or has written the complete file.
+  if (rng.chance(0.06)) {
+    static const long bs[] = {16, 64, 200, 1024, 4096};
+    static const char* kd[] = {"EINTR", "EINTR", "SHORT", "ENOSPC", "EIO"};
+    Json f = Json::object();
+    f.set("role", "sol"); f.set("op", "fwrite"); f.set("k", (long)rng.below(12)); f.set("kind", kd[rng.below(5)]); f.set("param", (long)rng.below(40));
+    Json fl = Json::array(); fl.push(f);
+    sc.set("wfaults", fl); sc.set("stdio_bufsize", bs[rng.below(5)]);
+  }
   // a second reader party: the library's own handler behind NLSolver::ReadSolution() (the "easy" API), for a model whose
   // columns are of mixed classes, so that the file's NL order is a proper permutation of the caller's order
   if (s.nvars > 0 && s.nlcons == 0 && rng.chance(0.25)) {
@@ -113,9 +124,21 @@ sim::RunResult run(const Json& sc) {
   Json nofaults = Json::array();
 
   std::string werr;
-  SimRun sw = sim_session(nofaults, 200000, [&] { werr = write_sol_real(s, path); });
+  const bool wfaulted = sc.has("wfaults");
+  SimRun sw = wfaulted ? sim_session(sc["wfaults"], 200000, [&] { werr = write_sol_real(s, path); }, sc["stdio_bufsize"].as_int(0))
+                       : sim_session(nofaults, 200000, [&] { werr = write_sol_real(s, path); });
   std::string bytes;
   sim::read_file(path, bytes);
+  if (wfaulted) {
+    bool fired = false; for (auto& kv : sw.fired) { bump(st, "wfired." + kv.first, kv.second); fired = true; }
+    if (fired && !werr.empty()) {
+      // the writer said so: nothing more is demanded of this hand-off
+      bump(st, "writer_reported_fault");
+      r.fingerprint = sim::fnv1a(bytes, sim::fnv1a(werr)); r.trace_sig = sim::fnv1a(std::string("wfault-reported")); r.nontrivial = true;
+      return r;
+    }
+    if (fired) bump(st, "writer_survived_fault");      // it returned normally: the file must be the complete one (judged below)
+  }
   if (!werr.empty()) { v.set("WRITER_FAILED", "exception", "WriteSolFile threw: " + werr); }
   SolReadConfig cfg; cfg.nvars = s.nvars; cfg.ncons = s.ncons; cfg.nlcons = s.nlcons;
   SolReadResult res;
